@@ -67,6 +67,19 @@ func (r *Restoration) Apply(res *pbresource.Resource) error {
 // Commit the restoration. Replaces the in-memory database wholesale and closes
 // any watches.
 func (r *Restoration) Commit() {
+	// Carry the event index over into the new database. A fresh database would
+	// start counting from the beginning again, but the publisher's topic buffers
+	// (and events still queued for publishing) outlive the restore for as long as
+	// a closed watch has not been released, and carry the old, larger indexes: a
+	// new watch would then be handed events of the abandoned history after its
+	// snapshot, because they look newer than the snapshot.
+	tx := r.s.txn(false)
+	idx, err := currentEventIndex(tx)
+	tx.Abort()
+	if err == nil {
+		_ = r.tx.Insert(tableNameMetadata, meta{Key: metaKeyEventIndex, Value: idx})
+	}
+
 	r.tx.Commit()
 
 	r.s.mu.Lock()
